@@ -18,7 +18,7 @@ pub const SPEC: PropSpec = PropSpec {
     level: "exploration",
     rule: "Cases = (value, serializer configuration incl. root name). Values: the 16 family types generated twice from the same seed - once with hostile payloads without any domain filter (markup characters, ']]>', '--', '?>', NUL, newlines, entity look-alikes, leading/trailing whitespace, empty and space-containing list items) and once with unique markup-free stand-ins of the same emptiness - plus 28 serialize-only shapes outside the round-trippable domain (maps with arbitrary keys incl. '', '@', '@x y', '$text', '<', 'a:b'; Option without skip; nested sequences; bytes; unit/newtype/struct variants and fields renamed to '<', 'a b', '1a', '', '@<'; 60-deep nesting; bare primitives) and root names from an arbitrary-string pool. If serialization returns Ok: (a) quick-xml's reader with all checks on must read the document without error and with no element left open, and every attribute list must iterate without error; (b) every element and attribute name must satisfy an independent XML 1.1 Name validator; (c) the markup skeleton (element nesting and names, attribute names) of the hostile document must equal that of the stand-in document and every payload slot (text, attribute value, list item) must unescape to exactly the hostile payload. SeError is an allowed outcome. Non-trivial = the value contains a markup-significant payload character or a non-name key/root.",
     assumptions: &["the reader is used as a tool (C01/C11 judge it)", "the Name validator is written from the XML 1.1 productions NameStartChar / NameChar", "slot alignment relies on the generator consuming identical randomness in both payload modes"],
-    required: &["ser.ok", "ser.err", "names_validated", "names_rejected_by_serializer", "slots_compared", "slots.list_items", "skeletons_compared", "types_seen_all", "bad_root_names_tried", "configs_seen_all36", "entry_points_compared", "limited_sinks_tried"],
+    required: &["ser.ok", "ser.err", "names_validated", "names_rejected_by_serializer", "slots_compared", "slots.list_items", "skeletons_compared", "types_seen_all", "bad_root_names_tried", "configs_seen_all36", "entry_points_compared", "write_serializable_compared", "limited_sinks_tried"],
     run,
     replay,
     thorough_layers: &[],
@@ -53,6 +53,7 @@ struct Local {
     cfgs: BTreeMap<usize, u64>,
     hostile_err_benign_ok: u64,
     entry_points: u64,
+    write_serializable: u64,
     limited_sinks: u64,
 }
 
@@ -322,6 +323,17 @@ fn check_entry_points(v: &dyn Val, loc: &mut Local, r: &mut Rng) -> Result<(), S
     if a.as_bytes() != &c[..] {
         return Err(format!("to_utf8_io_writer produced {:?} but to_string {:?}", String::from_utf8_lossy(&c), a));
     }
+    // Writer::write_serializable with the tag the type would get anyway = to_string_with_root
+    let tag = "w_root";
+    let mut cfg = SerCfg::plain();
+    cfg.root = Some(tag.to_string());
+    if let Ok(want) = v.ser(&cfg) {
+        let got = v.se_write_serializable(tag, None, false).map_err(|e| format!("Writer::write_serializable fails ({}) although to_string_with_root succeeds", e))?;
+        if got != want {
+            return Err(format!("Writer::write_serializable produced {:?} but to_string_with_root {:?}", got, want));
+        }
+        loc.write_serializable += 1;
+    }
     loc.entry_points += 1;
     if !a.is_empty() {
         // a sink with room for only a part of the document
@@ -457,6 +469,7 @@ fn run(ctx: &mut Ctx) {
     ctx.add("skeletons_compared", loc.skeletons);
     ctx.add("bad_root_names_tried", loc.bad_roots);
     ctx.add("entry_points_compared", loc.entry_points);
+    ctx.add("write_serializable_compared", loc.write_serializable);
     ctx.add("limited_sinks_tried", loc.limited_sinks);
     for (k, v) in &loc.types {
         ctx.add(&format!("type.{}", k), *v);
